@@ -406,7 +406,7 @@ class HttpProtocolHandler(BaseTcpServerHandler[HttpClientConnection]):
                 if len(ev) == 0:
                     continue
                 self.work.flush(self.flags.max_sendbuf_size)
-        except BrokenPipeError:
+        except OSError:     # BrokenPipeError, ConnectionResetError, ...
             pass
         finally:
             self.selector.unregister(self.work.connection)
